@@ -4,6 +4,7 @@ package verifsim
 // (WithCodec, WithCompression) and through the verif-tagged buffer-pool hook.
 
 import (
+	"unsafe"
 	"bytes"
 	"compress/gzip"
 	"compress/zlib"
@@ -23,7 +24,7 @@ type env struct {
 	w    *World
 	pool *simPool
 	// library fault injection: fail the k-th call of a kind
-	calls         map[string]int
+	calls         tally
 	failAt        map[string]int
 	Fired         map[string]int
 	Misuse        []string
@@ -35,15 +36,42 @@ type env struct {
 
 var curEnv *env
 
+// tally is a counter keyed by short strings, searched linearly: no runtime map operations, which the race build of
+// the simulator would report for state that tasks share through the baton.
+type tally struct {
+	keys []string
+	vals []int
+}
+
+func (t *tally) inc(k string) {
+	for i := range t.keys {
+		if t.keys[i] == k {
+			t.vals[i]++
+			return
+		}
+	}
+	t.keys = append(t.keys, k)
+	t.vals = append(t.vals, 1)
+}
+
+func (t *tally) get(k string) int {
+	for i := range t.keys {
+		if t.keys[i] == k {
+			return t.vals[i]
+		}
+	}
+	return 0
+}
+
 func (e *env) seam(kind string) error {
 	if e == nil {
 		return nil
 	}
-	e.calls[kind]++
+	e.calls.inc(kind)
 	if e.w != nil {
 		e.w.Yield("lib." + kind)
 	}
-	if at, ok := e.failAt[kind]; ok && e.calls[kind] == at {
+	if at, ok := e.failAt[kind]; ok && e.calls.get(kind) == at {
 		e.Fired[kind]++
 		if e.w != nil {
 			e.w.Logf("fault", "%s call %d fails", kind, at)
@@ -53,8 +81,11 @@ func (e *env) seam(kind string) error {
 	// per RPC: the k-th call of this kind made by a task of that RPC (independent of how RPCs interleave)
 	if e.pool != nil && e.pool.owner != nil {
 		key := e.pool.owner() + "/" + kind
-		e.calls[key]++
-		if at, ok := e.failAt[key]; ok && e.calls[key] == at {
+		if len(e.failAt) == 0 {
+			return nil
+		}
+		e.calls.inc(key)
+		if at, ok := e.failAt[key]; ok && e.calls.get(key) == at {
 			e.Fired["lib-"+kind]++
 			if e.w != nil {
 				e.w.Logf("fault", "%s call %d fails", key, at)
@@ -299,7 +330,7 @@ type simPool struct {
 	plan                      PoolPlan
 	rng                       *Chooser
 	free                      []*bytes.Buffer
-	meta                      map[*bytes.Buffer]*bufMeta
+	meta                      bufMetas
 	ops                       int
 	Gets, Puts, Reuses, Fresh int
 	MaxCap                    int
@@ -307,13 +338,68 @@ type simPool struct {
 	Violations                []string
 	owner                     func() string
 	CrossRPCReuse             int
-	lastOwner                 map[*bytes.Buffer]string
+	lastOwner                 bufOwners
 }
 
 const poisonByte = 0xA5
 
 func newSimPool(pp PoolPlan) *simPool {
-	return &simPool{plan: pp, rng: NewChooser(pp.Seed, 99), meta: map[*bytes.Buffer]*bufMeta{}, lastOwner: map[*bytes.Buffer]string{}}
+	return &simPool{plan: pp, rng: NewChooser(pp.Seed, 99)}
+}
+
+// bufMetas / bufOwners: tiny association lists keyed by buffer identity (a pool holds a handful of buffers).
+type bufMetas struct {
+	k []*bytes.Buffer
+	v []*bufMeta
+}
+
+func (m *bufMetas) get(b *bytes.Buffer) *bufMeta {
+	for i := range m.k {
+		if m.k[i] == b {
+			return m.v[i]
+		}
+	}
+	return nil
+}
+func (m *bufMetas) set(b *bytes.Buffer, x *bufMeta) {
+	for i := range m.k {
+		if m.k[i] == b {
+			m.v[i] = x
+			return
+		}
+	}
+	m.k, m.v = append(m.k, b), append(m.v, x)
+}
+func (m *bufMetas) del(b *bytes.Buffer) {
+	for i := range m.k {
+		if m.k[i] == b {
+			m.k, m.v = append(m.k[:i], m.k[i+1:]...), append(m.v[:i], m.v[i+1:]...)
+			return
+		}
+	}
+}
+
+type bufOwners struct {
+	k []*bytes.Buffer
+	v []string
+}
+
+func (m *bufOwners) get(b *bytes.Buffer) string {
+	for i := range m.k {
+		if m.k[i] == b {
+			return m.v[i]
+		}
+	}
+	return ""
+}
+func (m *bufOwners) set(b *bytes.Buffer, x string) {
+	for i := range m.k {
+		if m.k[i] == b {
+			m.v[i] = x
+			return
+		}
+	}
+	m.k, m.v = append(m.k, b), append(m.v, x)
 }
 
 func fullCap(b *bytes.Buffer) []byte {
@@ -334,7 +420,7 @@ func (p *simPool) get(w *World) *bytes.Buffer {
 	// candidates: respect quarantine
 	var cands []int
 	for i, b := range p.free {
-		if p.ops-p.meta[b].freedAt > p.plan.Quarantine {
+		if p.ops-p.meta.get(b).freedAt > p.plan.Quarantine {
 			cands = append(cands, i)
 		}
 	}
@@ -353,7 +439,7 @@ func (p *simPool) get(w *World) *bytes.Buffer {
 	}
 	b := p.free[pick]
 	p.free = append(p.free[:pick], p.free[pick+1:]...)
-	m := p.meta[b]
+	m := p.meta.get(b)
 	if !m.free {
 		p.Violations = append(p.Violations, "pool handed out a buffer that is not free")
 	}
@@ -368,11 +454,12 @@ func (p *simPool) get(w *World) *bytes.Buffer {
 	}
 	m.free = false
 	m.capAtGet = b.Cap()
+	raceAcquire(unsafe.Pointer(b)) // like sync.Pool: the Put of an object happens before the Get that returns it
 	owner := ""
 	if p.owner != nil {
 		owner = p.owner()
 	}
-	if lo := p.lastOwner[b]; lo != "" && lo != owner {
+	if lo := p.lastOwner.get(b); lo != "" && lo != owner {
 		p.CrossRPCReuse++
 	}
 	m.owner = owner
@@ -393,10 +480,10 @@ func (p *simPool) put(w *World, b *bytes.Buffer) bool {
 		p.Violations = append(p.Violations, "Put(nil)")
 		return true
 	}
-	m := p.meta[b]
+	m := p.meta.get(b)
 	if m == nil {
 		m = &bufMeta{}
-		p.meta[b] = m
+		p.meta.set(b, m)
 	} else if m.free {
 		p.Violations = append(p.Violations, "buffer released twice at "+panicSite(debug.Stack())+" (first release at "+m.freedSite+")")
 		if w != nil {
@@ -411,10 +498,10 @@ func (p *simPool) put(w *World, b *bytes.Buffer) bool {
 		p.MaxGrowth = g
 	}
 	if p.owner != nil {
-		p.lastOwner[b] = p.owner()
+		p.lastOwner.set(b, p.owner())
 	}
 	if b.Cap() > 8<<20 {
-		delete(p.meta, b)
+		p.meta.del(b)
 		return true // dropped, like the real pool
 	}
 	m.free = true
@@ -441,6 +528,7 @@ func (p *simPool) put(w *World, b *bytes.Buffer) bool {
 	if w != nil {
 		w.Logf("pool.put", "cap=%d", b.Cap())
 	}
+	raceReleaseMerge(unsafe.Pointer(b)) // after the poison is written: the next holder is ordered after all of this
 	return true
 }
 
